@@ -26,7 +26,7 @@ ASSUMPTIONS = [
 ]
 REQUIRED_CLASSES = {"all": ["op:update", "op:update_bundle", "op:add_bundle:ok", "op:add_bundle:refused_nested",
                             "op:add_bundle:refused_duplicate", "op:add_bundle:refused_no_id", "op:bundle:ok",
-                            "op:bundle:refused_duplicate", "op:flatten", "cross_environment", "update:merged_bundle"]}
+                            "op:bundle:refused_duplicate", "op:flatten", "op:mutate_record", "cross_environment", "update:merged_bundle"]}
 
 SHRINK_CAP = {"quick": 150, "thorough": 1500}
 BIDS = [{"ns": "http://a/", "local": "b1", "prefix": "ex", "as": "qn"}, {"ns": "http://a/", "local": "b2", "prefix": "p", "as": "qn"},
@@ -208,6 +208,35 @@ def apply(s, op, ctx):
                 if nb.identifier is None or nb.identifier.uri != uri:
                     items.append(_it("bundle_identifier_uri"))
             ctx.count("op:bundle:ok")
+    elif code == "mutate":
+        # a record of a pool document is modified in place (through each public mutator) between the operations
+        from prov.identifier import Namespace, QualifiedName
+        from ..canon import crecord
+        i = op[1] % len(s.docs)
+        d = s.docs[i]
+        where = [(None, d)] + [(b.identifier.uri, b) for b in d.bundles]
+        recs = [(u, r) for u, c in where for r in c.get_records()]
+        if not recs:
+            return []
+        u, rec = recs[op[2] % len(recs)]
+        MUT = Namespace("mut", "http://mutation.example/")
+        bag = s.models[i][0] if u is None else s.models[i][1][u]
+        old = crecord(rec)
+        if bag.get(old, 0) < 1:
+            items.append(_it("record_not_in_model_before_mutation"))
+            return items
+        if op[3] % 2 == 0:
+            pair = (MUT["added"].uri, ("str", "v%d" % op[4]))
+            rec.add_attributes([(MUT["added"], "v%d" % op[4])])
+        else:
+            pair = ("http://www.w3.org/ns/prov#type", ("qn", MUT["T%d" % (op[4] % 3)].uri))
+            rec.add_asserted_type(MUT["T%d" % (op[4] % 3)])
+        new = (old[0], old[1], tuple(sorted(set(old[2]) | {pair}, key=repr)))
+        bag[old] -= 1
+        if bag[old] == 0:
+            del bag[old]
+        bag[new] += 1
+        ctx.count("op:mutate_record")
     elif code == "flatten":
         i = op[1] % len(s.docs)
         d = s.docs[i]
@@ -268,6 +297,10 @@ def make_machine(Base):
         @rule(i=st.integers(0, 4))
         def flatten(self, i):
             self.do(["flatten", i])
+
+        @rule(i=st.integers(0, 4), r=st.integers(0, 40), how=st.integers(0, 1), k=st.integers(0, 5))
+        def mutate_a_record(self, i, r, how, k):
+            self.do(["mutate", i, r, how, k])
 
     return Conservation
 
